@@ -42,6 +42,7 @@ THEOREMS = ([(_P, "AldorVerif.C12.jmap_%s_spec32" % n) for n in PROVED]
             + [(_P, "AldorVerif.C12.jmap_ByteToSInt_spec32_partial")]
             + [(_P, "AldorVerif.C12.agree_within_31bit_%s" % n) for n in AGREE]
             + [(_P, "AldorVerif.C12.jmap_agrees_on_31bit_%s" % n) for n in COMBINED]
+            + [(_P, "AldorVerif.C12.bint_literal_fits_int"), (_P, "AldorVerif.C12.bint_literal_text_exact")]
             + [(_P, "AldorVerif.C12.routes_differ_outside_31bit"), (_P, "AldorVerif.C12.shift_count_differs_outside_0_31")])
 
 def translator():
@@ -59,6 +60,8 @@ def prepare(src=None):
     _PREP["regenerated"] = T.write_if_changed(os.path.join(common.LEAN, "AldorVerif", "Gen", "JMap.lean"), T.emit(L))
     _PREP["foamj_methods_translated"] = sorted(v["lean"] for v in L["methods"].values() if v["ok"])
     return L
+
+prepare_src = prepare          # the name common.run_parts looks for
 
 # ------------------------------------------------------------------ foamj from the tree's sources
 def foamj_classes(build):
@@ -221,6 +224,79 @@ def requests(sigs, rng, thorough):
                 lines.append(" ".join([name] + [str(x) for x in acc]))
     return lines
 
+# ------------------------------------------------------------------ big-integer constants (gj0BInt)
+BINT_KS = (15, 16, 28, 29, 30, 31, 32, 33, 61, 62, 63, 64, 100)
+
+def bint_values():
+    vs = [0, 1, -1, 2, -2, 7, 10, 1000000]
+    for k in BINT_KS:
+        for d in (-1, 0, 1):
+            vs += [2**k + d, -(2**k + d)]
+    return vs
+
+def bint_literal_probe(ctx, build, L, stats):
+    """the real emitter: a program whose Integer constants sit on both sides of every boundary is compiled
+    with -Fjava at -Q3 and -Q9 (from -Q3 on constants reach the back end as FOAM BInt literals; at -Q1 they
+    are parsed from strings at run time), every `BigInteger.valueOf(n)` / `new BigInteger("n")` of the
+    emitted Java is compared with Gen.JMap.bintLit n, and the executable form of bint_literal_fits_int
+    is evaluated on what the emitter wrote"""
+    from vlib import aldor
+    st = {"constants": 0, "valueOf": 0, "string": 0, "mismatch": 0, "not_emitted_as_literal": 0}
+    stats["bint_literals"] = st
+    if not L["bintlit"]["ok"]:
+        ctx.violation("jmap|gj0BInt|untranslated", "gj0BInt is no longer of the form the translator reads: " + L["bintlit"].get("reason", ""),
+                      {"kind": "untranslated", "reason": L["bintlit"].get("reason", "")}, found_input=False)
+        return
+    allv = bint_values()
+    st["constants"] = len(allv)
+    # all declarations first, and a sacrificial first negation: the first `-` of a unit is emitted as
+    # v.negate() (the operation is still being imported), the later ones are folded into negative literals
+    for q in (3, 9):
+        vals = allv
+        src = ['#include "aldor"', '#include "aldorio"', "import from MachineInteger, Integer;", "w: Integer := -5;"]
+        for k, v in enumerate(vals):
+            src.append("v%d: Integer := %s;" % (k, str(v) if v >= 0 else "-" + str(-v)))
+        src.append("stdout << w << newline;")
+        for k, v in enumerate(vals):
+            src.append('stdout << v%d << newline;' % k)
+        text = "\n".join(src) + "\n"
+        r = aldor.compile(build, {"bintlit.as": text}, ["-Q%d" % q, "-Fjava", "-Jmain", "bintlit.as"], timeout=300)
+        jsrc = r["outputs"].get(os.path.join("aldorcode", "bintlit.java"))
+        if r["rc"] != 0 or jsrc is None:
+            ctx.finding("jmap|gj0BInt|Q%d|javagen-fail" % q, "aldor -Q%d -Fjava fails on a program of Integer constants: %s" % (q, (r["stdout"] + r["stderr"])[-300:]),
+                        {"kind": "javagen-fail", "source": text, "log": (r["stdout"] + r["stderr"])[-3000:]})
+            continue
+        j = jsrc.decode("utf-8", "replace")
+        vo = [int(x) for x in re.findall(r"BigInteger\.valueOf\(\s*(-?\d+)\s*\)", j)]
+        sr = [int(x) for x in re.findall(r"new\s+(?:java\.math\.)?BigInteger\(\s*\"(-?\d+)\"\s*\)", j)]
+        seen = set(vo) | set(sr)
+        if re.search(r"BigInteger\.ZERO\b", j): seen.add(0)
+        if re.search(r"BigInteger\.ONE\b", j): seen.add(1)
+        st["valueOf"] += len(vo); st["string"] += len(sr)
+        st["not_emitted_as_literal"] += sum(1 for v in vals if v not in seen)
+        st.setdefault("not_emitted_examples", [v for v in vals if v not in seen][:20])
+        ask = sorted(set(vo) | set(sr))
+        m, _ = common.split_model(common.run_model("jmap", "\n".join("bintlit %d" % v for v in ask) + "\n"))
+        model = dict(zip(ask, m))
+        for n in sorted(set(vo)):
+            fits = -2**31 <= n < 2**31
+            if model[n] != "valueOf:%d" % n:
+                st["mismatch"] += 1
+                if not fits:
+                    ctx.finding("jmap|gj0BInt|valueOf-out-of-int-range", "at -Q%d the emitter wrote BigInteger.valueOf(%d): not a Java int literal (model: %s)" % (q, n, model[n]),
+                                {"kind": "impl-violates-property", "Q": q, "value": n, "model": model[n], "source": text})
+                else:
+                    ctx.corr_broken.append(("jmap", "bintlit %d (Q%d)" % (n, q), "valueOf:%d" % n, model[n]))
+            elif not fits:
+                ctx.violation("jmap|gj0BInt|fits-int", "emitter and model agree on BigInteger.valueOf(%d), outside the int range: contradicts bint_literal_fits_int" % n,
+                              {"kind": "inconsistent", "value": n})
+        for n in sorted(set(sr)):
+            if model[n] != "string:%d" % n:
+                st["mismatch"] += 1
+                ctx.corr_broken.append(("jmap", "bintlit %d (Q%d)" % (n, q), "string:%d" % n, model[n]))
+    if st["valueOf"] == 0 or st["string"] == 0:
+        ctx.notes.append("jmap: the big-integer literal probe saw %d valueOf and %d string constants: the emitter's switch-over was not exercised" % (st["valueOf"], st["string"]))
+
 def run_part(ctx, build):
     T = translator()
     L = T.load(build.src)                      # the scratch copy of the tree's current sources
@@ -244,6 +320,7 @@ def run_part(ctx, build):
             ctx.violation("jmap|row-lost|" + n, "builtin %s has a theorem but its table row is no longer translatable: %s" % (
                 n, next((r.get("reason") for r in L["rows"] if r["name"] == n), "row missing")),
                 {"kind": "row-lost", "row": n}, found_input=False)
+    bint_literal_probe(ctx, build, L, stats)
     # the probe
     cls = foamj_classes(build)
     d = os.path.join(build.top, "jmap-probe"); os.makedirs(d, exist_ok=True)
